@@ -7,6 +7,7 @@ import (
 	"io"
 	"os"
 	"sync"
+	"time"
 
 	"github.com/containerd/console"
 
@@ -40,6 +41,11 @@ type TTY struct {
 	// Tap, when non-nil, sees every write before the sink does.
 	Tap func([]byte)
 
+	// SyncReplies: Write returns only once the application has read every
+	// pending input byte (bounded wait) and had a moment to handle it: a
+	// terminal that answers a query before the write call is back
+	SyncReplies bool
+
 	SetRawCalls, ResetCalls, CloseCalls int
 	Reads                               int
 }
@@ -69,6 +75,9 @@ func (t *TTY) Inject(b []byte) {
 	t.cond.Broadcast()
 	t.mu.Unlock()
 }
+
+// SetSyncReplies switches SyncReplies under the lock.
+func (t *TTY) SetSyncReplies(on bool) { t.mu.Lock(); t.SyncReplies = on; t.mu.Unlock() }
 
 func (t *TTY) InjectString(s string) { t.Inject([]byte(s)) }
 
@@ -120,14 +129,22 @@ func (t *TTY) Write(p []byte) (int, error) {
 	}
 	tap := t.Tap
 	sink := t.Sink
+	sync := t.SyncReplies
 	t.mu.Unlock()
 	if tap != nil {
 		tap(p)
 	}
+	n, err := len(p), error(nil)
 	if sink != nil {
-		return sink.Write(p)
+		n, err = sink.Write(p)
 	}
-	return len(p), nil
+	if sync {
+		for i := 0; i < 200 && t.Pending() > 0; i++ {
+			time.Sleep(100 * time.Microsecond)
+		}
+		time.Sleep(500 * time.Microsecond)
+	}
+	return n, err
 }
 
 // TakeOut returns and clears the captured output.
